@@ -300,6 +300,10 @@ class Interp:
             return v != 0
         if isinstance(v, Op):
             return self.ch.choose(2) == 0
+        if isinstance(v, Lz):
+            if v.v is None:
+                v.v = v.cands[self.ch.choose(len(v.cands))]          # `while (n && usv)`: an input unit used as a truth value is compared with 0
+            return v.v != 0
         if isinstance(v, Ptr):
             return v.rec is not None
         if isinstance(v, (It, PtrLV)):
